@@ -270,7 +270,9 @@ def _dij_case(args):
 
 
 def dijkstra_bfs(tier, seed):
-    shapes = [(1, 4), (2, 3), (3, 3)] if tier == 'quick' else [(1, 4), (2, 3), (3, 3), (3, 4), (4, 4)]
+    shapes = [(1, 4), (2, 3), (3, 3), (3, 4), (4, 4)]
+    if tier != 'quick':
+        shapes += [(1, 9), (2, 7), (3, 5), (5, 3), (4, 5)]
     cases = [(h, w, b) for (h, w) in shapes for b in range(1 << (h * w))]
     with mp.Pool(16) as pool:
         res = pool.map(_dij_case, cases, chunksize=128)
@@ -517,6 +519,18 @@ def _ms(state):
 
 
 def _traj_case(args):
+    """a trajectory that makes the library raise is a reported failure (closure / totality), not a harness crash"""
+    try:
+        return _traj_case_inner(args)
+    except Exception as e:
+        import traceback
+        return {'evaluations': 1, 'nontrivial': 0, 'failures': [{
+            'what': 'the environment raised on a trajectory of a shipped configuration', 'prop': None,
+            'config': os.path.basename(args[0]), 'seed': args[1],
+            'error': f'{type(e).__name__}: {e}'[:200], 'where': traceback.format_exc()[-600:]}]}
+
+
+def _traj_case_inner(args):
     path, seed, steps = args
     import numpy as np
     import miniyaml
